@@ -40,6 +40,8 @@ SRC = {
                 "every run (loops with break/continue, try/except, the lookup table as state) and proved equal to the model's classify, extractEnclosing, "
                 "anonymizeValue and replaceMatchingItem (Proofs/SrcTieSecrets); Props/SrcSecrets restates the C07/C08 theorems for the translated functions.",
                 ["C07", "C08", "C09"]),
+    "words": (" SensitiveWordAnonymizer.anonymize is translated from the source text on every run (list comprehension, conditional expression) and "
+              "proved equal to the model's Words.anonymize; Props/SrcWords restates the no-survival theorem for the translated function.", ["C10"]),
     "jun": (" The arithmetic of the codec (_gap_encode, _gap, _fixedc) is translated from the source text on every run, on alphabet indices, and proved equal "
             "to the model's emit/gapsOf, gapBack and fixedc (Props/SrcJun).", ["C18"]),
     "as": (" _generate_as_number_replacement is translated from the source text on every run and proved equal to the model "
